@@ -7,7 +7,7 @@
 (* and every logged snapshot must equal, as an ordered list, the snapshot   *)
 (* the model computes for that recorder (histogram values as a bag).        *)
 (* All invariants of DebugSnapshot.tla are checked in every state.          *)
-EXTENDS DebugSnapshot, DrainCheck, Json, IOUtils, TLCExt
+EXTENDS DebugSnapshot, DrainCheck, DescribeLin, Json, IOUtils, TLCExt
 VARIABLE l
 Rec == ndJsonDeserialize(IOEnv.TRACE)
 tvars == <<vars, l>>
@@ -41,6 +41,16 @@ DrainOK(e) ==
      ELSE /\ Cardinality(miss) <= e.nsnaps * e.writers
           /\ IF miss # {} /\ e.listed THEN PrintT(<<"KNOWN", "CF05a", Cardinality(miss)>>) ELSE TRUE
 
+\* concurrent describe_* calls for one fresh (kind, name) on the real recorder (harness mode `describes`): the
+\* calls -- one per thread, released together, so no real-time order between them is assumed -- and the (unit,
+\* description) the quiescent snapshot shows for that name.  It must be the outcome of SOME sequential order of the
+\* calls under this module's own DescribeF (the rule of debugging.rs describe_metric).
+DescrOK(e) ==
+  LET Apply(s, c) == DescribeF(s, "c", 1, c.u, c.d)
+      CallOf(i) == e.calls[i]
+      outs == {MetaOf(RunOrder(o, CallOf, Apply, InitRec(4)), <<"c", 1>>) : o \in Orders(1..Len(e.calls))}
+  IN <<e.shown.u, e.shown.d>> \in outs
+
 TraceNext ==
   /\ l <= Len(Rec)
   /\ UNCHANGED nops
@@ -60,6 +70,7 @@ TraceNext ==
        \* recorder and updated once each; the snapshot must account for every update
        [] Ev = "round"    -> Obs(E.n >= 1 /\ Logged(E.snap) = RoundSnapshot(E.n, E.nm, E.l))
        [] Ev = "drain"    -> Obs(DrainOK(E))
+       [] Ev = "descr"    -> Obs(DescrOK(E))
        [] Ev = "note"     -> Obs(TRUE)
        [] OTHER -> FALSE      \* panic / unknown event: not a behaviour
 
